@@ -21,6 +21,13 @@ import Isotp.PyAgree.AddressInit
      model's field of `a.tx` / `a.rx` (`asym_accessors_model`).
   3. `swap_detected`: an 11-bit transmit half and a 29-bit receive half on which every tx answer differs from the rx answer, and
      on which each of the eleven delegations REDIRECTED TO THE OTHER OBJECT misses the model's value.
+  4. Section 5: a body that only reads names returns the same value in two environments that agree on the names it reads
+     (`retOf_congr`); with it the theorems of AddressFns.lean stated on the attribute view `halfEnv h` (`isForMe_agrees`, the
+     extension bytes) hold on the object the constructor returns: `is_for_me_presented`, `is_for_me_on_constructed`,
+     `address_accessors_on_constructed`, `arbitration_ids_on_constructed`.
+
+  Conventions: `retM M env body` = value returned by `body` run by the first interpreter `runFn` with callees `M`
+  (`retOf` = `retM noMeths`); objects other than `self` are opaque handles (`.meth "msg"`), as in `asymEnv` of AddressInit.lean.
 -/
 namespace Isotp.PyAgree.Acc
 open Isotp Isotp.Py Isotp.PyAgree Isotp.PyAgree.AddrInit
@@ -655,5 +662,500 @@ theorem swap_detected :
   · rw [ret_call0 _ env "self.rx_addr.get_tx_payload_prefix" (by decide)]
     show halfObj strict rxH msgW "get_tx_payload_prefix" [] ≠ _
     rw [r11]; cases strict <;> simp [notImplemented, rxH, txH, Half.txPrefix]
+
+/-! ## 5. From the attribute view `halfEnv h` to the constructed object
+
+  The agreement theorems of AddressFns.lean / Address.lean (`isForMe_agrees`, the extension bytes) are stated on the attribute view
+  `halfEnv h`; the constructor returns an environment that AGREES with `halfEnv h` on the attributes `halfEnv` defines
+  (`Address_init_constructs`, 4th conjunct) but also holds the locals of the constructor, the cached identifiers, ...
+  A body that only READS names (no assignment, no call used as a statement) returns the same value in two environments that agree
+  on the names it reads: `retOf_congr`.  With it the theorems transfer to the constructed object (`*_on_constructed`). -/
+
+mutual
+/-- every name the expression reads is in `ks` -/
+def roE (ks : List String) : PExpr → Bool
+  | .var p => decide (p ∈ ks)
+  | .int _ => true
+  | .tt => true
+  | .ff => true
+  | .none => true
+  | .strLit _ => true
+  | .binop _ a b => roE ks a && roE ks b
+  | .cmp _ a b => roE ks a && roE ks b
+  | .isNone e => roE ks e
+  | .isNotNone e => roE ks e
+  | .and_ a b => roE ks a && roE ks b
+  | .or_ a b => roE ks a && roE ks b
+  | .not_ e => roE ks e
+  | .ifexp c t e => roE ks c && roE ks t && roE ks e
+  | .lst xs => roA ks xs
+  | .index e i => roE ks e && roE ks i
+  | .sliceFrom e lo => roE ks e && roE ks lo
+  | .sliceTo e hi => roE ks e && roE ks hi
+  | .slice e lo hi => roE ks e && roE ks lo && roE ks hi
+  | .call _ args => roA ks args
+def roA (ks : List String) : PArgs → Bool
+  | .nil => true
+  | .cons e rest => roE ks e && roA ks rest
+end
+
+mutual
+/-- the statement writes nothing and every name it reads is in `ks` -/
+def roS (ks : List String) : PStmt → Bool
+  | .ret e => roE ks e
+  | .retNone => true
+  | .raise _ => true
+  | .assert_ e => roE ks e
+  | .ite c t e => roE ks c && roB ks t && roB ks e
+  | .pass => true
+  | .unsupported _ => true
+  | _ => false
+def roB (ks : List String) : PBlock → Bool
+  | .nil => true
+  | .cons s rest => roS ks s && roB ks rest
+end
+
+section congr
+set_option linter.unusedSectionVars false
+variable {ks : List String} {M : Meths} {env env' : Env}
+  (hag : ∀ k ∈ ks, env k = env' k) (hM : ∀ n a, M.fn n a env = M.fn n a env')
+include hag hM
+
+mutual
+theorem eval_env_congr : ∀ e : PExpr, roE ks e = true → eval M env e = eval M env' e
+  | .var p, ha => by
+    simp only [roE, decide_eq_true_eq] at ha
+    simp only [eval, hag p ha]
+  | .int _, _ => by simp only [eval]
+  | .tt, _ => by simp only [eval]
+  | .ff, _ => by simp only [eval]
+  | .none, _ => by simp only [eval]
+  | .strLit _, _ => by simp only [eval]
+  | .binop _ a b, ha => by
+    simp only [roE, Bool.and_eq_true] at ha
+    simp only [eval, eval_env_congr a ha.1, eval_env_congr b ha.2]
+  | .cmp _ a b, ha => by
+    simp only [roE, Bool.and_eq_true] at ha
+    simp only [eval, eval_env_congr a ha.1, eval_env_congr b ha.2]
+  | .isNone e, ha => by
+    simp only [roE] at ha
+    simp only [eval, eval_env_congr e ha]
+  | .isNotNone e, ha => by
+    simp only [roE] at ha
+    simp only [eval, eval_env_congr e ha]
+  | .and_ a b, ha => by
+    simp only [roE, Bool.and_eq_true] at ha
+    simp only [eval, eval_env_congr a ha.1, eval_env_congr b ha.2]
+  | .or_ a b, ha => by
+    simp only [roE, Bool.and_eq_true] at ha
+    simp only [eval, eval_env_congr a ha.1, eval_env_congr b ha.2]
+  | .not_ e, ha => by
+    simp only [roE] at ha
+    simp only [eval, eval_env_congr e ha]
+  | .ifexp c t e, ha => by
+    simp only [roE, Bool.and_eq_true] at ha
+    simp only [eval, eval_env_congr c ha.1.1, eval_env_congr t ha.1.2, eval_env_congr e ha.2]
+  | .lst xs, ha => by
+    simp only [roE] at ha
+    simp only [eval, evalArgs_env_congr xs ha]
+  | .index e i, ha => by
+    simp only [roE, Bool.and_eq_true] at ha
+    simp only [eval, eval_env_congr e ha.1, eval_env_congr i ha.2]
+  | .sliceFrom e i, ha => by
+    simp only [roE, Bool.and_eq_true] at ha
+    simp only [eval, eval_env_congr e ha.1, eval_env_congr i ha.2]
+  | .sliceTo e i, ha => by
+    simp only [roE, Bool.and_eq_true] at ha
+    simp only [eval, eval_env_congr e ha.1, eval_env_congr i ha.2]
+  | .slice e lo hi, ha => by
+    simp only [roE, Bool.and_eq_true] at ha
+    simp only [eval, eval_env_congr e ha.1.1, eval_env_congr lo ha.1.2, eval_env_congr hi ha.2]
+  | .call fn args, ha => by
+    simp only [roE] at ha
+    simp only [eval, evalArgs_env_congr args ha, hM]
+theorem evalArgs_env_congr : ∀ a : PArgs, roA ks a = true → evalArgs M env a = evalArgs M env' a
+  | .nil, _ => by simp only [evalArgs]
+  | .cons e rest, ha => by
+    simp only [roA, Bool.and_eq_true] at ha
+    simp only [evalArgs, eval_env_congr e ha.1, evalArgs_env_congr rest ha.2]
+end
+
+/-- two runs of a read-only block: same outcome, each in its own (unchanged) environment -/
+def FlowEq (env env' : Env) : Except PErr Flow → Except PErr Flow → Prop
+  | .error e, .error e' => e = e'
+  | .ok (.next e1), .ok (.next e2) => e1 = env ∧ e2 = env'
+  | .ok (.returned v e1), .ok (.returned v' e2) => v = v' ∧ e1 = env ∧ e2 = env'
+  | _, _ => False
+
+mutual
+theorem execStmt_env_congr : ∀ s : PStmt, roS ks s = true → FlowEq env env' (execStmt M env s) (execStmt M env' s)
+  | .ret e, ha => by
+    simp only [roS] at ha
+    simp only [execStmt, eval_env_congr hag hM e ha]
+    cases eval M env' e <;> simp [FlowEq]
+  | .retNone, _ => by simp [execStmt, FlowEq]
+  | .raise c, _ => by
+    simp only [execStmt]
+    split <;> simp [FlowEq]
+  | .assert_ e, ha => by
+    simp only [roS] at ha
+    simp only [execStmt, eval_env_congr hag hM e ha]
+    cases eval M env' e with
+    | error x => simp [FlowEq]
+    | ok v =>
+      cases ht : truthy v with
+      | error x => simp [FlowEq, ht]
+      | ok b => cases b <;> simp [FlowEq, ht]
+  | .ite c t e, ha => by
+    simp only [roS, Bool.and_eq_true] at ha
+    simp only [execStmt, eval_env_congr hag hM c ha.1.1]
+    cases eval M env' c with
+    | error x => simp [FlowEq]
+    | ok v =>
+      cases ht : truthy v with
+      | error x => simp [FlowEq, ht]
+      | ok b =>
+        cases b
+        · simpa [ht] using execBlock_env_congr e ha.2
+        · simpa [ht] using execBlock_env_congr t ha.1.2
+  | .pass, _ => by simp [execStmt, FlowEq]
+  | .unsupported _, _ => by simp [execStmt, FlowEq]
+  | .assign _ _, ha => by simp [roS] at ha
+  | .expr _, ha => by simp [roS] at ha
+  | .tryExcept _ _, ha => by simp [roS] at ha
+  | .while_ _ _, ha => by simp [roS] at ha
+  | .tryCatch _ _ _, ha => by simp [roS] at ha
+  | .break_, ha => by simp [roS] at ha
+  | .tryFinally _ _, ha => by simp [roS] at ha
+theorem execBlock_env_congr : ∀ b : PBlock, roB ks b = true → FlowEq env env' (execBlock M env b) (execBlock M env' b)
+  | .nil, _ => by simp [execBlock, FlowEq]
+  | .cons s rest, ha => by
+    simp only [roB, Bool.and_eq_true] at ha
+    have h1 := execStmt_env_congr s ha.1
+    have h2 := execBlock_env_congr rest ha.2
+    simp only [execBlock]
+    revert h1
+    cases execStmt M env s with
+    | error x =>
+      cases execStmt M env' s with
+      | error y => intro h1; simpa [FlowEq] using h1
+      | ok f => cases f <;> simp [FlowEq]
+    | ok f =>
+      cases execStmt M env' s with
+      | error y => cases f <;> simp [FlowEq]
+      | ok f' =>
+        cases f <;> cases f' <;> simp only [FlowEq, ok_bind, false_imp_iff, imp_self]
+        rintro ⟨rfl, rfl⟩; exact h2
+end
+
+/-- **a read-only body returns the same value in two environments that agree on what it reads** -/
+theorem retM_congr (b : PBlock) (hb : roB ks b = true) : retM M env b = retM M env' b := by
+  have h := execBlock_env_congr hag hM b hb
+  unfold retM runFn
+  revert h
+  cases execBlock M env b with
+  | error x =>
+    cases execBlock M env' b with
+    | error y => intro h; simp only [FlowEq] at h; simp [h]
+    | ok f => cases f <;> simp [FlowEq]
+  | ok f =>
+    cases execBlock M env' b with
+    | error y => cases f <;> simp [FlowEq]
+    | ok f' =>
+      cases f <;> cases f' <;> simp [FlowEq]
+      intro h _ _; exact h
+
+end congr
+
+theorem retOf_congr {ks : List String} {env env' : Env} (hag : ∀ k ∈ ks, env k = env' k) (b : PBlock) (hb : roB ks b = true) :
+    retOf env b = retOf env' b :=
+  retM_congr (M := noMeths) hag (fun _ _ => rfl) b hb
+
+/-! ### the transfer -/
+
+/-- the object agrees with the attribute view `halfEnv h` on the attributes `halfEnv` defines: the 4th conjunct of
+    `Address_init_constructs` -/
+def Views (h : Half) (env : Env) : Prop := ∀ k ∈ halfAttrKeys, env k = halfEnv h k
+
+def constKeys : List String :=
+  ["AddressingMode.Normal_11bits", "AddressingMode.Normal_29bits", "AddressingMode.NormalFixed_29bits",
+   "AddressingMode.Extended_11bits", "AddressingMode.Extended_29bits", "AddressingMode.Mixed_11bits", "AddressingMode.Mixed_29bits",
+   "TargetAddressType.Physical", "TargetAddressType.Functional"]
+
+def msgKeys : List String := ["msg.arbitration_id", "msg.is_extended_id", "msg.data"]
+
+/-- everything a method without parameter may read: the attributes of the view and the class constants -/
+def viewKeys : List String := halfAttrKeys ++ constKeys
+
+theorem agree_view {h : Half} {env : Env} (hv : Views h env) (hc : Consts env) : ∀ k ∈ viewKeys, env k = halfEnv h k := by
+  intro k hk
+  simp only [viewKeys, List.mem_append] at hk
+  rcases hk with hk | hk
+  · exact hv k hk
+  · have hc' := consts_halfEnv h
+    simp only [constKeys, List.mem_cons, List.not_mem_nil, or_false] at hk
+    rcases hk with rfl | rfl | rfl | rfl | rfl | rfl | rfl | rfl | rfl
+    · exact hc.c1.trans hc'.c1.symm
+    · exact hc.c2.trans hc'.c2.symm
+    · exact hc.c3.trans hc'.c3.symm
+    · exact hc.c4.trans hc'.c4.symm
+    · exact hc.c5.trans hc'.c5.symm
+    · exact hc.c6.trans hc'.c6.symm
+    · exact hc.c7.trans hc'.c7.symm
+    · exact hc.t1.trans hc'.t1.symm
+    · exact hc.t2.trans hc'.t2.symm
+
+theorem msgEnv_congr (m : CanMsg) (e1 e2 : Env) (k : String) (h : e1 k = e2 k) : msgEnv m e1 k = msgEnv m e2 k := by
+  by_cases h1 : k = "msg.arbitration_id"
+  · subst h1; rfl
+  by_cases h2 : k = "msg.is_extended_id"
+  · subst h2; rfl
+  by_cases h3 : k = "msg.data"
+  · subst h3; rfl
+  rw [msgEnv_of_ne m e1 k h1 h2 h3, msgEnv_of_ne m e2 k h1 h2 h3, h]
+
+theorem agree_msgEnv (m : CanMsg) {ks : List String} {e1 e2 : Env} (hag : ∀ k ∈ ks, e1 k = e2 k) :
+    ∀ k ∈ ks ++ msgKeys, msgEnv m e1 k = msgEnv m e2 k := by
+  intro k hk
+  simp only [List.mem_append] at hk
+  rcases hk with hk | hk
+  · exact msgEnv_congr m e1 e2 k (hag k hk)
+  · simp only [msgKeys, List.mem_cons, List.not_mem_nil, or_false] at hk
+    rcases hk with rfl | rfl | rfl <;> rfl
+
+/-- the five `_is_for_me_*` variants only read the view, the constants and the message -/
+theorem selectedPredicate_readOnly (m : Mode) : roB (viewKeys ++ msgKeys) (selectedPredicate m) = true := by
+  cases m <;> rfl
+
+/-- **`is_for_me` on ANY environment that presents `h`**: the installed variant, run on the object itself, answers `Half.isForMe` -/
+theorem is_for_me_presented {h : Half} {env : Env} (hp : Presents h env) (hc : Consts env) (hv : Views h env)
+    (ht : h.txOnly = false) (msg : CanMsg) :
+    ∃ n body, env "self.is_for_me" = some (.meth n) ∧ boundBody n = some body ∧
+      retOf (msgEnv msg env) body = .ok (pbool (h.isForMe msg)) := by
+  refine ⟨isForMeName h.mode, selectedPredicate h.mode, at_is_for_me hp ht, boundBody_isForMeName _, ?_⟩
+  rw [retOf_congr (agree_msgEnv msg (agree_view hv hc)) _ (selectedPredicate_readOnly _)]
+  exact isForMe_agrees h msg
+
+/-- the extension bytes and `_requires_extension_byte` (AddressFns.lean), on any environment that agrees with the view -/
+theorem get_tx_extension_byte_presented {h : Half} {env : Env} (hc : Consts env) (hv : Views h env) :
+    retOf env Src.Address_get_tx_extension_byte = .ok (optPV h.txExtByte) := by
+  rw [retOf_congr (agree_view hv hc) _ (by rfl : roB viewKeys Src.Address_get_tx_extension_byte = true)]
+  exact get_tx_extension_byte_agrees h
+
+theorem get_rx_extension_byte_presented {h : Half} {env : Env} (hc : Consts env) (hv : Views h env) :
+    retOf env Src.Address_get_rx_extension_byte = .ok (optPV h.rxExtByte) := by
+  rw [retOf_congr (agree_view hv hc) _ (by rfl : roB viewKeys Src.Address_get_rx_extension_byte = true)]
+  exact get_rx_extension_byte_agrees h
+
+/-! ### on the constructed object -/
+
+/-- the constructor establishes `Presents`, `Consts` and (when no identifier argument is a `bool`: `Address_init_constructs`)
+    `Views` -/
+theorem constructed_views (a : AddrArgs) (m : Mode) (h : Half) (hm : a.mode = some m) (hk : mkAddress a = .ok h)
+    (hnb : noBoolArgs a = true) :
+    ∃ env', runFn (initMeths a) (initEnv a m) Src.Address_init = .ok (pnone, env') ∧ Presents h env' ∧ Consts env' ∧ Views h env' := by
+  obtain ⟨e1, r1, x1, x2, x3⟩ := Address_init_constructs a m h hm hk hnb
+  have e : e1 = finalEnv a m h := by
+    have := r1.symm.trans (Address_init_run a m h hm hk)
+    injection this with this
+    injection this
+  exact ⟨e1, r1, presents_of_expected x1 x2, e ▸ consts_finalEnv a m h, x3⟩
+
+/-- **The accessors of `Address`, on the object the constructor returns, for ALL accepted arguments.**
+    `is_tx_only` / `is_rx_only` always; the accessors of a direction the object has are the class-level `def`s (not shadowed) and
+    return the model's field; those of a missing direction are replaced by `not_implemented_func_with_partial`. -/
+theorem address_accessors_on_constructed (a : AddrArgs) (m : Mode) (h : Half) (hm : a.mode = some m) (hk : mkAddress a = .ok h) :
+    ∃ env', runFn (initMeths a) (initEnv a m) Src.Address_init = .ok (pnone, env') ∧
+      retOf env' Src.Address_is_tx_only = .ok (pbool h.txOnly) ∧
+      retOf env' Src.Address_is_rx_only = .ok (pbool h.rxOnly) ∧
+      (h.rxOnly = false →
+        (env' "self.is_tx_29bits" = none ∧ retOf env' Src.Address_is_tx_29bits = .ok (pbool h.mode.is29)) ∧
+        (env' "self.requires_tx_extension_byte" = none ∧
+          retM selfMeths env' Src.Address_requires_tx_extension_byte = .ok (pbool h.mode.hasPrefix)) ∧
+        (env' "self.get_tx_payload_prefix" = none ∧ retOf env' Src.Address_get_tx_payload_prefix = .ok (.bytes h.txPrefix))) ∧
+      (h.txOnly = false →
+        (env' "self.is_rx_29bits" = none ∧ retOf env' Src.Address_is_rx_29bits = .ok (pbool h.mode.is29)) ∧
+        (env' "self.requires_rx_extension_byte" = none ∧
+          retM selfMeths env' Src.Address_requires_rx_extension_byte = .ok (pbool h.mode.hasPrefix)) ∧
+        (env' "self.get_rx_prefix_size" = none ∧ retOf env' Src.Address_get_rx_prefix_size = .ok (pint h.rxPrefixSize)) ∧
+        (env' "self.is_for_me" = some (.meth (isForMeName h.mode)) ∧
+          boundBody (isForMeName h.mode) = some (selectedPredicate h.mode))) ∧
+      (h.txOnly = true →
+        env' "self.is_rx_29bits" = some nip ∧ env' "self.requires_rx_extension_byte" = some nip ∧
+        env' "self.get_rx_prefix_size" = some nip ∧ env' "self.is_for_me" = some nip) ∧
+      (h.rxOnly = true →
+        env' "self.is_tx_29bits" = some nip ∧ env' "self.requires_tx_extension_byte" = some nip ∧
+        env' "self.get_tx_payload_prefix" = some nip) := by
+  obtain ⟨env', hr, hp, hc⟩ := constructed_presents a m h hm hk
+  refine ⟨env', hr, is_tx_only_agrees noMeths hp, is_rx_only_agrees noMeths hp, ?_, ?_, ?_, ?_⟩
+  · intro hro
+    obtain ⟨_, n2, _, n4, n5⟩ := tx_side_not_shadowed hp hro
+    exact ⟨⟨n4, is_tx_29bits_agrees noMeths hp⟩, ⟨n2, requires_tx_extension_byte_agrees hp hc⟩,
+      ⟨n5, get_tx_payload_prefix_agrees noMeths hp hro⟩⟩
+  · intro hto
+    obtain ⟨_, n2, _, n4, n5⟩ := rx_side_not_shadowed hp hto
+    exact ⟨⟨n4, is_rx_29bits_agrees noMeths hp⟩, ⟨n2, requires_rx_extension_byte_agrees hp hc⟩,
+      ⟨n5, get_rx_prefix_size_agrees noMeths hp hto⟩, ⟨at_is_for_me hp hto, boundBody_isForMeName _⟩⟩
+  · intro hto
+    obtain ⟨_, s2, _, s4, s5, s6⟩ := (shadowed_when_partial hp).1 hto
+    exact ⟨s4, s2, s6, s5⟩
+  · intro hro
+    obtain ⟨_, s2, _, s4, s5⟩ := (shadowed_when_partial hp).2 hro
+    exact ⟨s4, s2, s5⟩
+
+/-- **`is_for_me` on the constructed object** (no identifier argument a `bool`): the method the constructor installed, run on
+    the returned object and the message, answers `Half.isForMe`. -/
+theorem is_for_me_on_constructed (a : AddrArgs) (m : Mode) (h : Half) (hm : a.mode = some m) (hk : mkAddress a = .ok h)
+    (hnb : noBoolArgs a = true) (ht : h.txOnly = false) (msg : CanMsg) :
+    ∃ env' n body, runFn (initMeths a) (initEnv a m) Src.Address_init = .ok (pnone, env') ∧
+      env' "self.is_for_me" = some (.meth n) ∧ boundBody n = some body ∧
+      retOf (msgEnv msg env') body = .ok (pbool (h.isForMe msg)) := by
+  obtain ⟨env', hr, hp, hc, hv⟩ := constructed_views a m h hm hk hnb
+  obtain ⟨n, body, h1, h2, h3⟩ := is_for_me_presented hp hc hv ht msg
+  exact ⟨env', n, body, hr, h1, h2, h3⟩
+
+/-! ### the cached identifiers on the constructed object (the parameter `address_type` added to the environment) -/
+
+theorem otherAttrs_key_ne {h : Half} {kv : String × PV} (hkv : kv ∈ otherAttrs h) : kv.1 ≠ "address_type" := by
+  intro he
+  have hm : kv.1 ∈ (otherAttrs h).map (·.1) := List.mem_map_of_mem hkv
+  rw [he] at hm
+  revert hm
+  unfold otherAttrs
+  cases h.txOnly <;> cases h.rxOnly <;> by_cases hc : (h.mode = .nf29 ∨ h.mode = .m29) <;> simp [hc]
+
+theorem unsetAttrs_key_ne {h : Half} {k : String} (hk : k ∈ unsetAttrs h) : k ≠ "address_type" := by
+  intro he
+  rw [he] at hk
+  revert hk
+  unfold unsetAttrs
+  cases h.txOnly <;> cases h.rxOnly <;> by_cases hc : (h.mode = .nf29 ∨ h.mode = .m29) <;> simp [hc]
+
+/-- binding the parameter `address_type` does not touch the object -/
+theorem presents_tatEnv {h : Half} {env : Env} (t : Tat) (hp : Presents h env) : Presents h (tatEnv t env) := by
+  constructor
+  · intro kv hkv
+    rw [tatEnv_of_ne _ _ _ (otherAttrs_key_ne hkv)]; exact hp.1 kv hkv
+  · intro k hk
+    rw [tatEnv_of_ne _ _ _ (unsetAttrs_key_ne hk)]; exact hp.2 k hk
+
+theorem consts_tatEnv {env : Env} (t : Tat) (hc : Consts env) : Consts (tatEnv t env) := by
+  cases hc
+  constructor <;> (rw [tatEnv_of_ne _ _ _ (by decide)]; assumption)
+
+/-- `get_tx_arbitration_id` / `get_rx_arbitration_id` on the object the constructor returns, for ALL accepted arguments: the
+    identifiers cached by the constructor, i.e. `Half.txId` / `Half.rxId` -/
+theorem arbitration_ids_on_constructed (a : AddrArgs) (m : Mode) (h : Half) (hm : a.mode = some m) (hk : mkAddress a = .ok h) :
+    ∃ env', runFn (initMeths a) (initEnv a m) Src.Address_init = .ok (pnone, env') ∧
+      (h.rxOnly = false → env' "self.get_tx_arbitration_id" = none ∧
+        ∀ t, retOf (tatEnv t env') Src.Address_get_tx_arbitration_id = .ok (pint (h.txId t))) ∧
+      (h.txOnly = false → env' "self.get_rx_arbitration_id" = none ∧
+        ∀ t, retOf (tatEnv t env') Src.Address_get_rx_arbitration_id = .ok (pint (h.rxId t))) ∧
+      (h.rxOnly = true → env' "self.get_tx_arbitration_id" = some nip) ∧
+      (h.txOnly = true → env' "self.get_rx_arbitration_id" = some nip) := by
+  obtain ⟨env', hr, hp, hc⟩ := constructed_presents a m h hm hk
+  refine ⟨env', hr, ?_, ?_, ?_, ?_⟩
+  · intro hro
+    exact ⟨(tx_side_not_shadowed hp hro).1, fun t =>
+      get_tx_arbitration_id_presented noMeths (presents_tatEnv t hp) (consts_tatEnv t hc) hro t (tatEnv_address_type t env')⟩
+  · intro hto
+    exact ⟨(rx_side_not_shadowed hp hto).1, fun t =>
+      get_rx_arbitration_id_presented noMeths (presents_tatEnv t hp) (consts_tatEnv t hc) hto t (tatEnv_address_type t env')⟩
+  · intro hro; exact ((shadowed_when_partial hp).2 hro).1
+  · intro hto; exact ((shadowed_when_partial hp).1 hto).1
+
+/-! ### non-vacuity of the hypotheses -/
+
+/-- a validated address, with neither direction missing, no `bool` argument -/
+example : ∃ a m h, a.mode = some m ∧ mkAddress a = .ok h ∧ noBoolArgs a = true ∧ h.txOnly = false ∧ h.rxOnly = false :=
+  ⟨{ mode := some .m29, ta := .int 1, sa := .int 2, ae := .int 3 }, .m29, _, rfl, rfl, by decide, rfl, rfl⟩
+/-- the two halves of `swap_detected`: a transmit-only and a receive-only validated address that `mkAsym` accepts -/
+example : ∃ atx arx tx rx a, mkAddress atx = .ok tx ∧ mkAddress arx = .ok rx ∧ mkAsym tx rx = .ok a :=
+  ⟨txW, rxW, txH, rxH, _, rfl, rfl, rfl⟩
+/-- `Presents`, `Consts` hold of an environment (`constructed_presents` on the transmit half of `swap_detected`) -/
+example : ∃ env, Presents txH env ∧ Consts env :=
+  let ⟨env, _, hp, hc⟩ := constructed_presents txW .n11 txH rfl rfl
+  ⟨env, hp, hc⟩
+
+#print axioms Isotp.PyAgree.Acc.retOf_eq_retM
+#print axioms Isotp.PyAgree.Acc.evalBuiltin_none
+#print axioms Isotp.PyAgree.Acc.ret_var
+#print axioms Isotp.PyAgree.Acc.ret_call0
+#print axioms Isotp.PyAgree.Acc.ret_call1
+#print axioms Isotp.PyAgree.Acc.presents_of_raw
+#print axioms Isotp.PyAgree.Acc.presents_of_expected
+#print axioms Isotp.PyAgree.Acc.consts_halfEnv
+#print axioms Isotp.PyAgree.Acc.inv_txNip
+#print axioms Isotp.PyAgree.Acc.inv_finalEnv
+#print axioms Isotp.PyAgree.Acc.consts_finalEnv
+#print axioms Isotp.PyAgree.Acc.constructed_presents
+#print axioms Isotp.PyAgree.Acc.mkAddress_not_both
+#print axioms Isotp.PyAgree.Acc.at_tx_only
+#print axioms Isotp.PyAgree.Acc.at_rx_only
+#print axioms Isotp.PyAgree.Acc.at_is_29bits
+#print axioms Isotp.PyAgree.Acc.at_mode
+#print axioms Isotp.PyAgree.Acc.at_rx_prefix_size
+#print axioms Isotp.PyAgree.Acc.at_tx_payload_prefix
+#print axioms Isotp.PyAgree.Acc.at_is_for_me
+#print axioms Isotp.PyAgree.Acc.at_tx_id
+#print axioms Isotp.PyAgree.Acc.at_rx_id
+#print axioms Isotp.PyAgree.Acc.rx_side_not_shadowed
+#print axioms Isotp.PyAgree.Acc.tx_side_not_shadowed
+#print axioms Isotp.PyAgree.Acc.shadowed_when_partial
+#print axioms Isotp.PyAgree.Acc.is_tx_only_agrees
+#print axioms Isotp.PyAgree.Acc.is_rx_only_agrees
+#print axioms Isotp.PyAgree.Acc.is_tx_29bits_agrees
+#print axioms Isotp.PyAgree.Acc.is_rx_29bits_agrees
+#print axioms Isotp.PyAgree.Acc.get_rx_prefix_size_agrees
+#print axioms Isotp.PyAgree.Acc.get_tx_payload_prefix_agrees
+#print axioms Isotp.PyAgree.Acc.requires_rx_extension_byte_delegates
+#print axioms Isotp.PyAgree.Acc.requires_tx_extension_byte_delegates
+#print axioms Isotp.PyAgree.Acc.p_requires_extension_byte_presented
+#print axioms Isotp.PyAgree.Acc.selfMeths_requires
+#print axioms Isotp.PyAgree.Acc.requires_rx_extension_byte_agrees
+#print axioms Isotp.PyAgree.Acc.requires_tx_extension_byte_agrees
+#print axioms Isotp.PyAgree.Acc.Address_is_for_me_class_raises
+#print axioms Isotp.PyAgree.Acc.boundBody_isForMeName
+#print axioms Isotp.PyAgree.Acc.installed_is_for_me
+#print axioms Isotp.PyAgree.Acc.get_tx_arbitration_id_presented
+#print axioms Isotp.PyAgree.Acc.get_rx_arbitration_id_presented
+#print axioms Isotp.PyAgree.Acc.asym_get_tx_extension_byte_delegates
+#print axioms Isotp.PyAgree.Acc.asym_get_tx_arbitration_id_delegates
+#print axioms Isotp.PyAgree.Acc.asym_is_tx_29bits_delegates
+#print axioms Isotp.PyAgree.Acc.asym_requires_tx_extension_byte_delegates
+#print axioms Isotp.PyAgree.Acc.asym_get_tx_payload_prefix_delegates
+#print axioms Isotp.PyAgree.Acc.asym_get_rx_extension_byte_delegates
+#print axioms Isotp.PyAgree.Acc.asym_is_for_me_delegates
+#print axioms Isotp.PyAgree.Acc.asym_get_rx_arbitration_id_delegates
+#print axioms Isotp.PyAgree.Acc.asym_is_rx_29bits_delegates
+#print axioms Isotp.PyAgree.Acc.asym_requires_rx_extension_byte_delegates
+#print axioms Isotp.PyAgree.Acc.asym_get_rx_prefix_size_delegates
+#print axioms Isotp.PyAgree.Acc.asym_is_partial_address_false
+#print axioms Isotp.PyAgree.Acc.withTat_tatPV
+#print axioms Isotp.PyAgree.Acc.halfObj_lookups
+#print axioms Isotp.PyAgree.Acc.asym_accessors_model
+#print axioms Isotp.PyAgree.Acc.delegations_model
+#print axioms Isotp.PyAgree.Acc.swap_detected
+#print axioms Isotp.PyAgree.Acc.eval_env_congr
+#print axioms Isotp.PyAgree.Acc.evalArgs_env_congr
+#print axioms Isotp.PyAgree.Acc.execStmt_env_congr
+#print axioms Isotp.PyAgree.Acc.execBlock_env_congr
+#print axioms Isotp.PyAgree.Acc.retM_congr
+#print axioms Isotp.PyAgree.Acc.retOf_congr
+#print axioms Isotp.PyAgree.Acc.agree_view
+#print axioms Isotp.PyAgree.Acc.msgEnv_congr
+#print axioms Isotp.PyAgree.Acc.agree_msgEnv
+#print axioms Isotp.PyAgree.Acc.selectedPredicate_readOnly
+#print axioms Isotp.PyAgree.Acc.is_for_me_presented
+#print axioms Isotp.PyAgree.Acc.get_tx_extension_byte_presented
+#print axioms Isotp.PyAgree.Acc.get_rx_extension_byte_presented
+#print axioms Isotp.PyAgree.Acc.constructed_views
+#print axioms Isotp.PyAgree.Acc.address_accessors_on_constructed
+#print axioms Isotp.PyAgree.Acc.is_for_me_on_constructed
+#print axioms Isotp.PyAgree.Acc.otherAttrs_key_ne
+#print axioms Isotp.PyAgree.Acc.unsetAttrs_key_ne
+#print axioms Isotp.PyAgree.Acc.presents_tatEnv
+#print axioms Isotp.PyAgree.Acc.consts_tatEnv
+#print axioms Isotp.PyAgree.Acc.arbitration_ids_on_constructed
 
 end Isotp.PyAgree.Acc
